@@ -133,6 +133,25 @@ func (c *Ctx) Finish() {
 	}
 }
 
+// MayDie announces that the case about to run may legitimately end this process (a callback of the
+// embedding program that panics ends the process on a tree that does not recover it - which is not what the
+// case is about). The results so far are written first; if the process then dies, the parent takes them and
+// does not report a crash. Such a case is the last one of its batch: a panicking goroutine runs its deferred
+// functions first, so the rest of the process goes on for a moment and cannot know whether it is about to
+// end - the announcement is therefore not withdrawn (MustLive is for cases that can know).
+func (c *Ctx) MayDie(why string) {
+	if c.ResultPath != "" {
+		WriteJSON(c.ResultPath, c.Result())
+		os.WriteFile(c.ResultPath+".maydie", []byte(why), 0o644)
+	}
+}
+
+func (c *Ctx) MustLive() {
+	if c.ResultPath != "" {
+		os.Remove(c.ResultPath + ".maydie")
+	}
+}
+
 func (c *Ctx) NViol() int {
 	c.mu.Lock()
 	defer c.mu.Unlock()
